@@ -177,11 +177,29 @@ def run(ctx, rep):
     if not ok:
         rep.finding(R3, 'C19.R3/registry/jinja-text', 'pytableaux/proof/writers/jinja.py', 'jinja registry', 'the plain-text writer is no longer registered')
     mc = m.func(WRITERS, 'TabWriterMeta.__call__')
-    txt = astq.u(mc)
-    ok = "registries['default']" in txt and 'return reg[fmt](*args, **kw)' in txt and 'for reg in registries.values()' in txt
-    rep.instance(R3, ok=ok, nontrivial='TabWriterMeta.__call__')
-    if not ok:
-        rep.finding(R3, 'C19.R3/TabWriterMeta.__call__', m.loc(WRITERS, mc), 'TabWriterMeta.__call__', 'TabWriter(format) no longer resolves a registered format in any registry')
+    rep.consult(m.loc(WRITERS, mc) + ' TabWriterMeta.__call__')
+    # folded: TabWriter(fmt, ...) resolves the format in the default registry first, then in any registry; no format -> the default writer
+    from ..minieval import Interp as _I, Obj as _O, Raises as _Rs
+
+    class Reg(dict):
+        def __init__(self, name, default=None, **kw):
+            super().__init__(**kw)
+            self.name, self.default = name, default
+    mk = lambda tag: (lambda *a, **k: (tag, a, tuple(sorted(k.items()))))
+    dflt = Reg('doctree', default=mk('DEFAULT'), html=mk('HTML'))
+    other = Reg('jinja', text=mk('TEXT'))
+    TabWriterM = _O('TabWriter')
+    for with_default_key in (True, False):
+        regs = dict(default=dflt, jinja=other) if with_default_key else dict(doctree=dflt, jinja=other)
+        itc = _I(dict(TabWriter=TabWriterM, registries=regs, registry=dflt, KeyError=KeyError), where='TabWriterMeta.__call__')
+        for args, kw, want in (((), {}, ('DEFAULT', (), ())), (('html',), {}, ('HTML', (), ())), (('text', 'polish'), {}, ('TEXT', ('polish',), ())),
+                               ((), {'format': 'text', 'notation': 'x'}, ('TEXT', (), (('notation', 'x'),))), (('nosuch',), {}, 'KeyError')):
+            r = itc.safe(mc, [TabWriterM, *args], dict(kw))
+            ok = (isinstance(r, _Rs) and 'KeyError' in r.text) if want == 'KeyError' else r == want
+            case = f'TabWriter{args}{kw or ""} default-registry-key={with_default_key}'
+            rep.instance(R3, ok=ok, nontrivial=('TabWriterMeta.__call__', case))
+            if not ok:
+                rep.finding(R3, f'C19.R3/TabWriterMeta.__call__/{case}', m.loc(WRITERS, mc), 'TabWriterMeta.__call__', f'{case}: gives {r!r}, expected {want!r}')
     tpl = (m.root / 'pytableaux/proof/writers/templates/text/nodes.jinja2')
     if not tpl.exists():
         raise AnalysisError('plain-text template nodes.jinja2 vanished')
@@ -202,12 +220,28 @@ def run(ctx, rep):
         if not ok:
             rep.finding(R3, f'C19.R3/template/{what}', 'pytableaux/proof/writers/templates/text/nodes.jinja2', 'text template', f'the plain-text template no longer renders the {what} as reviewed')
     ws = m.func('pytableaux.proof.writers.jinja', 'TextTabWriter._write_structure')
-    txt = astq.u(ws)
-    ok = 'template.render(structure=s)' in txt and 'for c, child in enumerate(s.children)' in txt and 'self._write_structure(child, template, prefix=next_pfx)' in txt
-    rep.instance(R3, ok=ok, nontrivial='_write_structure')
     rep.consult(m.loc('pytableaux.proof.writers.jinja', ws) + ' TextTabWriter._write_structure')
-    if not ok:
-        rep.finding(R3, 'C19.R3/_write_structure', m.loc('pytableaux.proof.writers.jinja', ws), 'TextTabWriter._write_structure', 'no longer renders the structure and then every child structure in order')
+    # folded over mock structures: every structure is rendered exactly once, parent before its children, children in order
+    from collections import deque as _dq
+
+    def S(name, *children):
+        return _O(name, name=name, children=list(children))
+    rendered = []
+    tmpl = _O('template', render=lambda structure: (rendered.append(structure.name), f'[{structure.name}]')[1])
+    its = _I(dict(deque=_dq, enumerate=enumerate, len=len), where='TextTabWriter._write_structure')
+    w = _O('writer', __srcclass__=(m, ClassRef('pytableaux.proof.writers.jinja', 'TextTabWriter')))
+    w._write_structure = lambda s_, t_, **kw: its.call(ws, [w, s_, t_], kw)
+    for label, tree_, order in (('single', S('r'), ['r']), ('fork', S('r', S('a'), S('b')), ['r', 'a', 'b']),
+                                ('nested', S('r', S('a', S('a1'), S('a2')), S('b'), S('c', S('c1'))), ['r', 'a', 'a1', 'a2', 'b', 'c', 'c1'])):
+        del rendered[:]
+        r = its.safe(ws, [w, tree_, tmpl])
+        text = r if isinstance(r, str) else ''
+        pos = [text.find(f'[{n}]') for n in order]
+        ok = isinstance(r, str) and rendered == order and all(p >= 0 for p in pos) and pos == sorted(pos) and all(text.count(f'[{n}]') == 1 for n in order)
+        rep.instance(R3, ok=ok, nontrivial=('_write_structure', label))
+        if not ok:
+            rep.finding(R3, f'C19.R3/_write_structure/{label}', m.loc('pytableaux.proof.writers.jinja', ws), 'TextTabWriter._write_structure',
+                        f'{label}: structures rendered {rendered} (expected {order} once each, in that order in the text); output {r!r:.120}')
     r4(ctx, rep)
 
 
